@@ -17,6 +17,11 @@ def _exp_resolve(m, row):
         return "err", KeyError
     except (Reject, ValueError, TypeError):
         return "skip", None
+    if isinstance(row, int) and not isinstance(row, bool):
+        # a position may be given from the end
+        if not (-m.n() <= row < m.n()):
+            return "skip", None
+        return "ok", row % m.n()
     if not (0 <= idx < m.n()):
         return "skip", None
     return "ok", idx
@@ -26,7 +31,7 @@ def step(w, op, prop, strict_others=False):
     """Apply one op.  Raises TViolation.  Returns a short tag for statistics."""
     kind = op[0]
     # table ids come from the generator's picture of the world; an id that does not exist here is skipped
-    if kind == "ctor":
+    if kind in ("ctor", "polluter"):
         tids = []
     else:
         tids = [op[1]] if kind != "d_concat" else list(op[1])
@@ -48,6 +53,8 @@ def step(w, op, prop, strict_others=False):
         if how == "skip" or col not in m.cols:
             return "skipped"
         r = np_row(row)
+        if isinstance(r, int) and via != "item":
+            return "skipped"        # a position resolves to itself
         if via == "item":
             val, exc = call(lambda: t[col, r])
         elif via == "get_index":
@@ -199,6 +206,15 @@ def step(w, op, prop, strict_others=False):
             w.taint_sharers(tid)
         _after_mutation(w, prop, tid, where)
         return "setslice_index" if col == m.index else "setslice"
+    if kind == "polluter":
+        # another table in the same process, built with non-default regular-expression flags, uses the same selector
+        # text (unchecked): nothing of it may leak into the tables under test
+        _, names, pattern = op
+        if not names:
+            return "skipped"
+        call(lambda: w.xd.Table({"name": np_col("s", list(names)), "v": np_col("f", [float(i) for i in range(len(names))])},
+                                index="name", regex_flags=0).rows[pattern])
+        return "polluter"
     if kind == "ctor":
         # the checked constructor: must either raise ValueError or return a table that satisfies the invariants
         _, spec, variant = op
@@ -441,6 +457,50 @@ def _derive(w, op, prop):
         for tx in values:
             dk = getattr(getattr(val, "_data", {}).get(tx, None), "dtype", None) if exc is None else None
             newkinds[tx] = "i" if (dk is not None and dk.kind in "iu") else "f"
+    elif kind == "d_select":
+        # the documented low-level entry point: rows (one selector or a chain of selectors) and columns (names and
+        # expressions) in one call
+        _, tid, sels, names = op
+        t, m = w.real[tid], w.model[tid]
+        for s_ in sels[1:]:
+            if not (isinstance(s_, tuple) and s_ and s_[0] == "slice" and all(x is None or (isinstance(x, int) and not isinstance(x, bool)) for x in s_[1:])):
+                return "skipped"        # later selectors of a _select chain: plain position slices only (see the generator)
+        try:
+            idx = m.select(tuple(model_sel(s) for s in sels))
+            sub = m.take_rows(idx)
+        except Reject:
+            return "skipped"
+        except Exception:
+            return "skipped"
+        texts, values = [], {}
+        for nm in names:
+            if isinstance(nm, tuple):
+                tx = expr_text(nm)
+                if not _numeric_expr(w, tid, nm) or tx in m.cols or tx in m.scalars:
+                    return "skipped"
+                try:
+                    values[tx] = [eval_expr(nm, {c: sub.data[c][i] for c in sub.cols}) for i in range(sub.n())]
+                    if sub.n() == 0:
+                        eval_expr(nm, {c: 1 for c in sub.cols})
+                except (ZeroDivisionError, KeyError, TypeError, OverflowError):
+                    return "skipped"
+                texts.append(tx)
+            else:
+                if nm not in m.cols:
+                    return "skipped"
+                texts.append(nm)
+        if len(set(texts)) != len(texts) or any(" " in x for x in texts):
+            return "skipped"
+        newm = sub.take_cols(texts, values)
+        rows_arg = np_sel(sels[0]) if len(sels) == 1 else tuple(np_sel(s) for s in sels)
+        if len(sels) == 1 and isinstance(rows_arg, (list, tuple, np.ndarray)):
+            rows_arg = (rows_arg,)          # an iterable first argument is read as a chain of selectors
+        where = "table #%d._select(%r, %r)" % (tid, rows_arg, " ".join(texts))
+        val, exc = call(lambda: t._select(rows_arg, " ".join(texts)))
+        newkinds = dict(w.kinds[tid])
+        for tx in values:
+            dk = getattr(getattr(val, "_data", {}).get(tx, None), "dtype", None) if exc is None else None
+            newkinds[tx] = "i" if (dk is not None and dk.kind in "iu") else "f"
     elif kind == "d_add":
         _, t1, t2 = op
         a, b = w.model[t1], w.model[t2]
@@ -523,7 +583,7 @@ def _derive(w, op, prop):
         return "derive_rejected"
     if exc is not None:
         raise TViolation(prop + ".derive_raises", "%s raised %s: %s" % (where, type(exc).__name__, exc))
-    share = op[1] if kind in ("d_rows", "d_cols", "d_copy") else None     # these may return views / the same arrays
+    share = op[1] if kind in ("d_rows", "d_cols", "d_copy", "d_select") else None     # these may return views / the same arrays
     k = w.add_derived(val, newm, newkinds, share_with=share)
     try:
         w.check_equal(prop, k, where, order=order)
